@@ -28,7 +28,7 @@ LEVEL = "fault_enumeration"
 SHARDS = {"quick": 4, "thorough": 16}
 SHARD_TIMEOUT = {"quick": 900, "thorough": 3400}
 REQUIRED = ["wsgi-rendezvous", "wsgi-yield-injection", "asgi-virtual-time", "cleanup-exactly-once", "no-leaked-thread", "no-pending-task",
-            "delivered-prefix", "bounded-return", "deadlock-analysis-armed", "producer-steps-after-close"]
+            "delivered-prefix", "bounded-return", "deadlock-analysis-armed", "producer-steps-after-close", "queued-relay"]
 RULE = ("WSGI SendEventResponse rendezvous scenarios: producer length n in 0..4 x close point k (before first next, after item 1..n, after exhaustion) x producer state at "
         "close {exhausted, mid-step then yields / returns / raises, ahead (item ready, relay blocked in put)} x ping {20 ms, never}; WSGI yield-injection scenarios: random "
         "n<=4, close point, producer delays 0-3 ms, producer raising, ping 2 ms / never, LINE-event pauses p=0.4; WSGI StreamResponse early close; ASGI StreamResponse and "
@@ -240,7 +240,32 @@ def rendezvous(ctx, n, k, state, then, ping, empties=False):
     pool.shutdown(wait=False)
 
 
-def wsgi_stream_response(ctx, n, k, raise_at):
+class ClosingIterator:
+    """a producer that is an iterator object with its own close() (not a generator)"""
+
+    def __init__(self, n, raise_at, marks):
+        self.n, self.raise_at, self.marks, self.i = n, raise_at, marks, 0
+
+    def __iter__(self):
+        self.marks["entered"] += 1
+        return self
+
+    def __next__(self):
+        if self.i >= self.n:
+            raise StopIteration
+        if self.raise_at == self.i:
+            raise KeyError("producer")
+        self.marks["yielded"].append(self.i)
+        self.i += 1
+        return b"%d;" % (self.i - 1)
+
+    def close(self):
+        self.marks["cleanup"] += 1
+        if self.marks["cleanup"] > 1:
+            raise RuntimeError("producer closed twice")
+
+
+def wsgi_stream_response(ctx, n, k, raise_at, kind="generator"):
     """plain StreamResponse (no threads): early close must close the producer exactly once"""
     from baize import wsgi
     marks = {"cleanup": 0, "entered": 0, "yielded": []}
@@ -255,18 +280,86 @@ def wsgi_stream_response(ctx, n, k, raise_at):
                 yield b"%d;" % i
         finally:
             marks["cleanup"] += 1
-    r = drivers.run_wsgi(wsgi.StreamResponse(gen()), drivers.to_environ(drivers.Req()), close_after=k)
-    case = {"class": "wsgi.StreamResponse", "n": n, "close_after": k, "raise_at": raise_at}
+    producer = gen() if kind == "generator" else ClosingIterator(n, raise_at, marks)
+    r = drivers.run_wsgi(wsgi.StreamResponse(producer), drivers.to_environ(drivers.Req()), close_after=k)
+    case = {"class": "wsgi.StreamResponse", "n": n, "close_after": k, "raise_at": raise_at, "producer": kind}
     ctx.mon("cleanup-exactly-once")
-    if marks["entered"] and marks["cleanup"] != 1:
-        ctx.violation(f"wsgi-stream|cleanup-ran-{marks['cleanup']}-times", case, "")
+    early = k is not None and k < n and (raise_at is None or raise_at >= k) and k > 0
+    if kind == "generator":
+        if marks["entered"] and marks["cleanup"] != 1:
+            ctx.violation(f"wsgi-stream|cleanup-ran-{marks['cleanup']}-times", case, "")
+    else:
+        if marks["cleanup"] > 1 or (early and marks["cleanup"] != 1):
+            ctx.violation(f"wsgi-stream|iterator-close-called-{marks['cleanup']}-times", case, repr(r.exc))
     ids = [int(x) for x in r.body.split(b";") if x]
     ctx.mon("delivered-prefix")
     if ids != marks["yielded"][:len(ids)]:
         ctx.violation("wsgi-stream|delivered-not-a-prefix-of-yielded", case, f"{ids} vs {marks['yielded']}")
     will_raise = raise_at is not None and raise_at < n and (k is None or raise_at < k)
     if (r.exc is not None) != will_raise or (r.exc is not None and not isinstance(r.exc, KeyError)):
-        ctx.violation("wsgi-stream|exception-identity", case, repr(r.exc))
+        ctx.violation(f"wsgi-stream|exception-identity|{type(r.exc).__name__ if r.exc else 'none'}", case, repr(r.exc))
+
+
+def queued_relay(ctx, ping):
+    """all workers of the shared pool are busy: a second event stream's relay is still queued when its iterable is closed"""
+    import baize.wsgi.responses as R
+    from baize import wsgi
+    from baize.concurrency import ThreadPoolExecutor
+    _SC[0] += 1
+    prefix = f"c06q{os.getpid()}x{_SC[0]}_"
+    pool = ThreadPoolExecutor(max_workers=1, thread_name_prefix=prefix)
+    R.SendEventResponse.thread_pool = pool
+    gate = threading.Event()
+    m1, m2 = {"entered": 0, "cleanup": 0}, {"entered": 0, "cleanup": 0}
+
+    def blocker():
+        m1["entered"] += 1
+        try:
+            yield {"data": "first", "id": "0"}
+            gate.wait(20)
+        finally:
+            m1["cleanup"] += 1
+
+    def second():
+        m2["entered"] += 1
+        try:
+            yield {"data": "x", "id": "0"}
+        finally:
+            m2["cleanup"] += 1
+    it1 = iter(wsgi.SendEventResponse(blocker(), ping_interval=5)(drivers.to_environ(drivers.Req()), lambda s, h, e=None: None))
+    first = next(it1)  # the only worker is now inside the first stream's relay
+    it2 = iter(wsgi.SendEventResponse(second(), ping_interval=ping)(drivers.to_environ(drivers.Req()), lambda s, h, e=None: None))
+    res = {}
+
+    def consumer():
+        try:
+            res["got"] = next(it2)  # a ping: the relay has not started
+            it2.close()
+            res["closed"] = True
+        except BaseException as e:  # noqa
+            res["exc"] = e
+    ct = threading.Thread(target=consumer, daemon=True, name=prefix + "consumer")
+    ct.start()
+    ct.join(5.0)
+    case = {"scenario": "second stream closed while its relay is still queued behind a busy pool", "ping": ping}
+    ctx.mon("queued-relay")
+    ctx.mon("bounded-return")
+    if ct.is_alive():
+        ctx.violation("wsgi-sse|close-waits-for-a-relay-that-never-started(pool busy)", case, repr(frames_of(ct)[:6]))
+        ctx.extra["_stuck_threads"] = True
+    else:
+        if res.get("exc") is not None:
+            ctx.violation(f"wsgi-sse|queued-relay|unexpected-exception-{type(res['exc']).__name__}", case, repr(res["exc"]))
+    gate.set()
+    try:
+        for _ in it1:
+            pass
+    except Exception:
+        pass
+    time.sleep(0.02)
+    if not ct.is_alive() and m2["entered"] and m2["cleanup"] != 1:
+        ctx.violation(f"wsgi-sse|queued-relay|cleanup-ran-{m2['cleanup']}-times", case, "")
+    pool.shutdown(wait=False)
 
 
 # =====================================================================================  WSGI yield injection
@@ -423,7 +516,7 @@ class PlainAsyncIterable:
         return self.make(self.i - 1)
 
 
-def asgi_scenario(ctx, cls_name, n_items, item_delay, send_delay, t_disc, ping, raise_at, agen):
+def asgi_scenario(ctx, cls_name, n_items, item_delay, send_delay, t_disc, ping, raise_at, agen, empties=0):
     from baize import asgi
     cls = getattr(asgi, cls_name)
     loop = drivers.VLoop(max_iterations=200_000)
@@ -438,6 +531,10 @@ def asgi_scenario(ctx, cls_name, n_items, item_delay, send_delay, t_disc, ping, 
         started.append(1)
         try:
             for i in range(n_items):
+                for _ in range(empties):  # zero-length keep-alive chunks / field-less events, each a producer step of its own
+                    if item_delay:
+                        await asyncio.sleep(item_delay)
+                    yield {} if sse else b""
                 if item_delay:
                     await asyncio.sleep(item_delay)
                 if raise_at == i:
@@ -503,7 +600,7 @@ def asgi_scenario(ctx, cls_name, n_items, item_delay, send_delay, t_disc, ping, 
             pass
         loop.close()
     case = {"class": "asgi." + cls_name, "n": n_items, "producer_delay": item_delay, "send_delay": send_delay, "disconnect_at": t_disc, "ping": ping,
-            "raise_at": raise_at, "async_generator": agen}
+            "raise_at": raise_at, "async_generator": agen, "empty_chunks_before_each_item": empties}
     ctx.mon("asgi-virtual-time")
     fam = "asgi-sse" if sse else "asgi-stream"
     if stuck:
@@ -523,7 +620,7 @@ def asgi_scenario(ctx, cls_name, n_items, item_delay, send_delay, t_disc, ping, 
             ctx.violation(f"{fam}|task-destroyed-while-pending", case, e[:200])
         else:
             ctx.count("loop-exception-handler-message(observation)")
-    delivered = [x[1] for x in log if x[0] == "body" and x[1] and not x[1].startswith(b":")]
+    delivered = [x[1] for x in log if x[0] == "body" and x[1] and not x[1].startswith(b":") and (not sse or b"id: " in x[1])]
     try:
         ids = [int(b.split(b"id: ")[1].split(b"\n")[0]) for b in delivered] if sse else [int(x) for b in delivered for x in b.split(b";") if x]
     except Exception:
@@ -581,14 +678,25 @@ def run(ctx):
                                 sig, nt = asgi_scenario(ctx, cls, n_items, idl, sdl, td, 1.0, raise_at, agen)
                                 sigs.add((cls, sig))
                                 ctx.case_enum(nt)
+                                if agen and n_items and idl and idx % 8 == 1:
+                                    sig, nt = asgi_scenario(ctx, cls, n_items, idl, sdl, td, 1.0, raise_at, True, empties=3)
+                                    sigs.add((cls, sig))
+                                    ctx.case_enum(nt)
     ctx.extra["asgi_distinct_event_order_signatures"] = len(sigs)
     ctx.sample("asgi-grid", {"class": "asgi.SendEventResponse", "n": 3, "producer_delay": 1.5, "send_delay": 0.5, "disconnect_at": 1.001, "ping": 1.0, "raise_at": None})
     # ---------------- WSGI StreamResponse
     for n in range(0, 5):
         for k in [None] + list(range(0, n + 1)):
             for raise_at in (None, 0, 2):
-                wsgi_stream_response(ctx, n, k, raise_at)
-                ctx.case(("wsgi-stream", n, k, raise_at) if k is not None and k < n else None)
+                for kind in ("generator", "iterator-with-close"):
+                    wsgi_stream_response(ctx, n, k, raise_at, kind)
+                    ctx.case(("wsgi-stream", n, k, raise_at, kind) if k is not None and k < n else None)
+    if ctx.shard == 0:
+        for ping in (0.02, 0.2):
+            queued_relay(ctx, ping)
+            ctx.case(("queued-relay", ping))
+    else:
+        ctx.mon("queued-relay", 0)
     # ---------------- WSGI rendezvous
     import itertools
     scen = []
@@ -646,9 +754,11 @@ def run(ctx):
 def replay(ctx, case):
     if case.get("class", "").startswith("asgi."):
         asgi_scenario(ctx, case["class"][5:], case["n"], case["producer_delay"], case["send_delay"], case["disconnect_at"], case["ping"], case["raise_at"],
-                      case.get("async_generator", True))
+                      case.get("async_generator", True), case.get("empty_chunks_before_each_item", 0))
     elif case.get("class") == "wsgi.StreamResponse":
-        wsgi_stream_response(ctx, case["n"], case["close_after"], case["raise_at"])
+        wsgi_stream_response(ctx, case["n"], case["close_after"], case["raise_at"], case.get("producer", "generator"))
+    elif "scenario" in case:
+        queued_relay(ctx, case["ping"])
     elif "state" in case:
         rendezvous(ctx, case["n"], case["close_after"], case["state"], case["then"], case["ping"], case.get("field_less_events", False))
     else:
